@@ -99,6 +99,45 @@ func runC08(e *core.Env) error {
 			Tags: []string{"segcache", fmt.Sprintf("maxreads=%d", maxreads), fmt.Sprintf("keys>5=%v", nkeys > 5)}, Key: fmt.Sprintf("seg %d %d", s, e.Seed)})
 		e.Add(core.Case{Impl: segVerdict, Spec: "ok", Key: fmt.Sprintf("seg-o %d", s), Tags: []string{"segcache-oracle"}})
 	}
+	// ---- (1a') concurrent readers of ONE range arriving while its first fetch is still in flight: the read
+	// budget still holds (one fetch serves about max-reads reads - a few more are tolerated for the
+	// window between the cache lock and the segment lock - never all of them)
+	for _, maxreads := range []int{1, 2, 3} {
+		vc := jrpc2.NewVerifCache(maxreads)
+		const readers = 7
+		var mu sync.Mutex
+		servedBy := map[uint64]int{}
+		fetches := 0
+		var wg sync.WaitGroup
+		for g := 0; g < readers; g++ {
+			wg.Add(1)
+			go func() {
+				defer wg.Done()
+				bs, err := vc.Get(5, 2, func() ([]eth.Block, error) {
+					mu.Lock()
+					fetches++
+					id := uint64(fetches)
+					mu.Unlock()
+					time.Sleep(25 * time.Millisecond) // a slow source
+					return []eth.Block{{Header: eth.Header{Number: eth.Uint64(id)}}}, nil
+				})
+				if err == nil && len(bs) == 1 {
+					mu.Lock()
+					servedBy[bs[0].Num()]++
+					mu.Unlock()
+				}
+			}()
+			time.Sleep(2 * time.Millisecond)
+		}
+		wg.Wait()
+		verdict := "ok"
+		for id, n := range servedBy {
+			if n > maxreads+3 { // (readers that pass the budget check before an earlier one has been counted: a few at most)
+				verdict = fmt.Sprintf("fetch #%d was served to %d concurrent readers; max reads is %d (%d fetches for %d readers)", id, n, maxreads, fetches, readers)
+			}
+		}
+		e.Add(core.Case{Impl: verdict, Spec: "ok", Key: fmt.Sprintf("seg-concurrent %d", maxreads), Nontrivial: true, Tags: []string{"segcache-concurrent-readers"}})
+	}
 	// ---- (1b) head cache
 	for s := 0; s < e.N(150, 3000); s++ {
 		rr := r.Fork()
@@ -120,7 +159,11 @@ func runC08(e *core.Env) error {
 			case 0, 1:
 				n := uint64(1 + rr.Intn(12))
 				h := []byte{byte(n + 1), byte(1 + rr.Intn(3))}
-				nh.VerifUpdate(n, h)
+				hcopy := append([]byte(nil), h...)
+				nh.VerifUpdate(n, hcopy)
+				for k := range hcopy {
+					hcopy[k] ^= 0xff // the caller reuses its buffer afterwards (the poller decodes into one response struct)
+				}
 				announced[fmt.Sprintf("%d %x", n, h)] = true
 				hitsSince = 0
 				ops = append(ops, fmt.Sprintf("h-update %d %x", n, h))
